@@ -1250,7 +1250,17 @@ class RpcServer:
                         # Resolve SHM pointer on input batch
                         input_batch, resolved_cm, release_fn = resolve_shm_batch(input_batch, resolved_cm, shm)
 
-                        input_batch = _coerce_input_batch(input_batch, input_schema)
+                        try:
+                            input_batch = _coerce_input_batch(input_batch, input_schema)
+                        except BaseException:
+                            # The resolved batch never becomes ``prev_input``, so
+                            # nothing else would give its SHM region back.
+                            if release_fn is not None:
+                                try:
+                                    release_fn()
+                                except Exception:
+                                    _logger.debug("failed to release rejected stream input", exc_info=True)
+                            raise
 
                         ab_in = AnnotatedBatch(batch=input_batch, custom_metadata=resolved_cm, _release_fn=release_fn)
                         if prev_input is not None:
